@@ -102,7 +102,7 @@ Proof.
   { unfold factors_ok. apply forallb_forall. intros [f fd] Hin. cbn [fst snd].
     assert (Hf : f < length (fl_design fb)).
     { apply in_combine_l in Hin. apply in_seq in Hin. lia. }
-    rewrite (frag1_isact f Hf). unfold all_basic in H5. rewrite forallb_forall in H5. apply orb_true_iff. left. unfold basic_fd.
+    rewrite (frag1_isact f Hf). unfold all_basic in H5. rewrite forallb_forall in H5. apply orb_true_iff. left. apply orb_true_iff. left. unfold basic_fd.
     apply H5. eapply in_combine_r. exact Hin. }
   assert (HL : act_levels_nonempty fb = true).
   { unfold act_levels_nonempty. rewrite frag1_act. exact H9. }
@@ -193,7 +193,10 @@ Proof. apply (f2_keys_of_ok fb H2 [] [] cn1 lcn1 f1_memos f1_make_enumerator f1_
 
 Lemma f1_decode_key k : key_ok fb k ->
   exists r, decode_key fb k = Some r /\ forall g, row_of_run r g = decoded_row fb k g.
-Proof. apply (f2_decode_key fb H2 [] [] cn1 lcn1 f1_memos f1_make_enumerator f1_count_pos). Qed.
+Proof.
+  intros Hk. destruct (f2_decode_key fb H2 [] [] cn1 lcn1 f1_memos f1_make_enumerator f1_count_pos k Hk) as [r [Hd Hr]].
+  exists r. split; [exact Hd|]. intros g. rewrite Hr. unfold cand_row. rewrite (f0_no_derived_ucd fb H2 frag1_no_derived). reflexivity.
+Qed.
 
 (** C04 on F1 *)
 Theorem f1_accept_sound k cand :
